@@ -421,16 +421,30 @@ func reportCommitViolations(fam []vector, cviols []commitViol) {
 		}
 		_, detail := fires(flags)
 		m := commitViol{v.vecIdx, flags, v.variant, fired{v.f.oracle, detail}}
+		// class: the roles the entries play according to the reference verifier (not their names)
+		c0, argID, argH := cu.build(flags, v.variant)
+		verdict := refVerifyCommit(cu.keys, quorum, argID, argH, c0)
 		kinds := map[string]bool{}
-		for _, f := range flagNames(flags) {
-			kinds[f] = true
+		for i, f := range flags {
+			switch {
+			case f == 0:
+			case verdict.counted>>uint(i)&1 == 1:
+				kinds["counting"] = true
+			case verdict.validNil>>uint(i)&1 == 1:
+				kinds["valid-nil"] = true
+			default:
+				kinds["invalid:"+commitFlagKinds[f]] = true
+			}
 		}
 		var ks []string
 		for k := range kinds {
 			ks = append(ks, k)
 		}
 		sort.Strings(ks)
-		class := v.f.oracle + "|" + v.variant + "|" + strings.Join(ks, ",")
+		class := v.f.oracle + "|" + strings.Join(ks, ",")
+		if !verdict.structural {
+			class += "|" + verdict.why
+		}
 		b := bestC[class]
 		if b == nil {
 			bestC[class] = &cand{m, 1}
